@@ -489,10 +489,10 @@ theorem lookupS_zeroFields {st : StructTy} (hn : (st.fields.map (·.name)).Nodup
 
 /-! ### exact typing: what is stored and what is read back -/
 
-/-- a value of a converted map as Go produces it for a property of reflected type `src`: never nil,
-    and a pointer only when `src` is a pointer type -/
-def shaped (src : GoTy) (v : SV) : Bool :=
-  !v.isNilPtr && !v.isNilIface && (!v.isPtrVal || src.isPtr)
+/-- a value of a converted map as Go produces it (for a property of reflected type `src`): never
+    a nil pointer, never the nil interface -/
+def shaped (_src : GoTy) (v : SV) : Bool :=
+  !v.isNilPtr && !v.isNilIface
 
 theorem convOK_iface (src : GoTy) : convOK .iface src = true := by
   unfold convOK
@@ -575,14 +575,14 @@ theorem readField_stored {f : Field} {src : GoTy} (hex : exactField f src = true
     (dis eid : Bool) {v : SV} (hv : shaped src v = true) :
     readField f src dis eid (if f.ty = src then v else .ptr v) =
       .ok (if (dis || eid) && src != .iface && v.isZero then none else some v) := by
-  simp only [shaped, Bool.and_eq_true, Bool.not_eq_true', Bool.or_eq_true] at hv
-  obtain ⟨⟨hv1, hv2⟩, hv3⟩ := hv
+  simp only [shaped, Bool.and_eq_true, Bool.not_eq_true'] at hv
+  obtain ⟨hv1, hv2⟩ := hv
   simp only [exactField, Bool.or_eq_true, beq_iff_eq, Bool.and_eq_true, Bool.not_eq_true', bne_iff_ne, ne_eq] at hex
   have hel : elemTy f.ty src = src := by
     rcases hex with hex | ⟨⟨hex, hnp⟩, _⟩
     · rw [hex, elemTy_self]
     · rw [hex, elemTy_ptr hnp]
-  have hx : ∀ (fv : SV), fieldValue src fv = v →
+  have hx : ∀ (fv : SV), fieldValue f.ty src fv = v →
       fv.isNilPtr = false → readField f src dis eid fv =
         .ok (if (dis || eid) && src != .iface && v.isZero then none else some v) := by
     intro fv hfv hnn
@@ -595,18 +595,13 @@ theorem readField_stored {f : Field} {src : GoTy} (hex : exactField f src = true
   · simp only [hft, if_true]
     apply hx v _ hv1
     cases v with
-    | ptr e =>
-      have : src.isPtr = true := by
-        rcases hv3 with h | h
-        · simp [SV.isPtrVal] at h
-        · exact h
-      simp [fieldValue, this]
+    | ptr e => cases hp : src.isPtr <;> simp [fieldValue, hft, hp]
     | _ => rfl
   · simp only [hft, if_false]
     rcases hex with hex | ⟨⟨hex, hnp⟩, _⟩
     · exact absurd hex hft
     · apply hx (.ptr v) _ rfl
-      simp [fieldValue, hnp]
+      simp [fieldValue, hex, hnp]
 
 /-- what a property reads from a field that holds the field's zero value -/
 theorem readField_zero {f : Field} {src : GoTy} (hex : exactField f src = true) (hexp : f.exported = true)
@@ -638,10 +633,11 @@ theorem readField_zero {f : Field} {src : GoTy} (hex : exactField f src = true) 
         · rw [hex, isPtr_ptr] at hp'; cases hp'
       have hsi : (src != GoTy.iface) = true := by rw [← hft]; simpa using hi
       simp only [hp', hi', Bool.false_or]
-      have hx : fieldValue src f.zero = f.zero := by
+      have hx : fieldValue f.ty src f.zero = f.zero := by
         cases hzv : f.zero <;> simp [hzv, SV.isPtrVal, fieldValue] at hz3 ⊢
+      rw [hft] at hx
       unfold readField
-      simp only [hz2, Bool.false_eq_true, if_false, hexp, Bool.not_true, hx, hz4, hft, elemTy_self, emptyLike_exact,
+      simp only [hz2, Bool.false_eq_true, if_false, hexp, Bool.not_true, hft, hx, hz4, elemTy_self, emptyLike_exact,
         hsi, hz1, reflIsZero]
       cases dis <;> cases eid <;> simp [Out.bind]
 
@@ -792,13 +788,13 @@ theorem conv_isNilPtr (dst src : GoTy) (v : SV) : (conv dst src v).isNilPtr = v.
     · rfl
     · split <;> rfl
 
-theorem fieldValue_of_not_ptr {src : GoTy} {x : SV} (h : x.isPtrVal = false ∨ src.isPtr = true) :
-    fieldValue src x = x := by
+theorem fieldValue_of_not_ptr {fty src : GoTy} {x : SV}
+    (h : x.isPtrVal = false ∨ (fty.isPtr && !src.isPtr) = false) : fieldValue fty src x = x := by
   cases x with
   | ptr e =>
     rcases h with h | h
     · simp [SV.isPtrVal] at h
-    · simp [fieldValue, h]
+    · simp only [fieldValue, h]; rfl
   | _ => rfl
 
 /-- the value stored in the field (behind a fresh pointer for a pointer field) -/
@@ -822,25 +818,19 @@ theorem readField_storedC {f : Field} {p : SProp} (hexp : f.exported = true)
     (hconv : convOK (elemTy f.ty (reflTy p.ty)) (reflTy p.ty) = true) {v : SV}
     (hv : shaped (reflTy p.ty) v = true) :
     readField f (reflTy p.ty) p.disabled p.emptyIsDefault (storedC f p v) = .ok (readBackC f p (some v)) := by
-  simp only [shaped, Bool.and_eq_true, Bool.not_eq_true', Bool.or_eq_true] at hv
-  obtain ⟨⟨hv1, _⟩, hv3⟩ := hv
-  have hcp : (convBack f p v).isPtrVal = v.isPtrVal := by
-    unfold convBack; split
-    · rfl
-    · exact conv_isPtrVal _ _ _
+  simp only [shaped, Bool.and_eq_true, Bool.not_eq_true'] at hv
+  obtain ⟨hv1, _⟩ := hv
   have hcn : (convBack f p v).isNilPtr = false := by
     unfold convBack; split
     · exact hv1
     · rw [conv_isNilPtr]; exact hv1
-  have hfv : fieldValue (reflTy p.ty) (storedC f p v) = convBack f p v := by
+  have hfv : fieldValue f.ty (reflTy p.ty) (storedC f p v) = convBack f p v := by
     unfold storedC
     by_cases hw : (f.ty.isPtr && !(reflTy p.ty).isPtr) = true
     · simp only [hw, if_true]
-      simp only [Bool.and_eq_true, Bool.not_eq_true'] at hw
-      simp [fieldValue, hw.2]
+      simp [fieldValue, hw]
     · simp only [hw, Bool.false_eq_true, if_false]
-      apply fieldValue_of_not_ptr
-      rw [hcp]; exact hv3
+      exact fieldValue_of_not_ptr (Or.inr (by simpa using hw))
   have hnn : (storedC f p v).isNilPtr = false := by
     unfold storedC
     split
@@ -881,7 +871,7 @@ theorem readField_zeroC {f : Field} {p : SProp} (hexp : f.exported = true)
       obtain ⟨⟨⟨hz1, hz2⟩, hz3⟩, hz4⟩ := hz
       have hel : elemTy f.ty (reflTy p.ty) = f.ty := by simp [elemTy, hp']
       rw [hel] at hconv
-      have hx : fieldValue (reflTy p.ty) f.zero = f.zero := fieldValue_of_not_ptr (Or.inl hz3)
+      have hx : fieldValue f.ty (reflTy p.ty) f.zero = f.zero := fieldValue_of_not_ptr (Or.inl hz3)
       have hrz : reflIsZero f.ty f.zero = true := by simp [reflIsZero, hi, hz1]
       unfold readField
       simp only [hz2, Bool.false_eq_true, if_false, hexp, Bool.not_true, hx, hz4, hel, readBackC, hp', hi',
@@ -958,7 +948,7 @@ structure StructValue (st : StructTy) (props : List (String × SProp)) (fs : Lis
     lookupS f.name fs = some f.zero
 
 theorem readField_some {f : Field} {src : GoTy} {dis eid : Bool} {fv x : SV}
-    (h : readField f src dis eid fv = .ok (some x)) : x = fieldValue src fv ∧ fv.isNilPtr = false := by
+    (h : readField f src dis eid fv = .ok (some x)) : x = fieldValue f.ty src fv ∧ fv.isNilPtr = false := by
   unfold readField at h
   split at h
   · cases h
@@ -978,23 +968,20 @@ theorem readField_some {f : Field} {src : GoTy} {dis eid : Bool} {fv x : SV}
 
 theorem stored_eq_of_shaped {f : Field} {src : GoTy} (hex : exactField f src = true) {fv : SV}
     (hs : fieldShaped f src fv = true) (hn : fv.isNilPtr = false) :
-    (if f.ty = src then fieldValue src fv else .ptr (fieldValue src fv)) = fv := by
+    (if f.ty = src then fieldValue f.ty src fv else .ptr (fieldValue f.ty src fv)) = fv := by
   simp only [exactField, Bool.or_eq_true, beq_iff_eq, Bool.and_eq_true, Bool.not_eq_true', bne_iff_ne, ne_eq] at hex
   simp only [fieldShaped] at hs
   by_cases hft : f.ty = src
   · simp only [hft, beq_self_eq_true, if_true, Bool.or_eq_true, Bool.not_eq_true'] at hs ⊢
     cases fv with
-    | ptr e =>
-      rcases hs with hs | hs
-      · simp [SV.isPtrVal] at hs
-      · simp [fieldValue, hs]
+    | ptr e => cases hp : src.isPtr <;> simp [fieldValue, hp]
     | _ => rfl
   · have hb : (f.ty == src) = false := by simpa using hft
     simp only [hb, Bool.false_eq_true, if_false, Bool.or_eq_true, hft] at hs ⊢
-    rcases hex with hex | ⟨⟨_, hnp⟩, _⟩
+    rcases hex with hex | ⟨⟨hex, hnp⟩, _⟩
     · exact absurd hex hft
     · cases fv with
-      | ptr e => simp [fieldValue, hnp]
+      | ptr e => simp [fieldValue, hex, hnp]
       | nilPtr => simp [SV.isNilPtr] at hn
       | _ => simp [SV.isNilPtr, SV.isPtrVal] at hs
 
